@@ -1471,6 +1471,102 @@ class EscB(B):
         return "esc", stmt
 
 
+class CteB(B):
+    """third family: ONE shared CTE object (plain / nesting / recursive with union()/union_all() / nesting+recursive; optionally
+    aliased or attached with add_cte(nest_here=True)) referenced from 1-3 sibling scopes of one statement and from nested scopes
+    of different depth"""
+
+    def make_cte(self):
+        sa = self.sa
+        t1 = self.t1
+        o = self.pick(6)
+        nesting = o in (1, 3, 5)
+        name = ["counter", "c_te", "tree"][self.pick(3)]
+        if o in (0, 1):
+            self.k("cte", "nesting_cte" if nesting else "plain_cte")
+            c = sa.select(t1.c.id.label("n"), t1.c.x.label("x")).where(t1.c.x > self.pick(5)).cte(name, nesting=nesting)
+        else:
+            self.k("cte", "recursive", "nesting_recursive_cte" if nesting else "recursive_cte")
+            base = sa.select(sa.literal(1).label("n"), sa.literal(0).label("x")).cte(name, recursive=True, nesting=nesting)
+            step = sa.select(base.c.n + 1, base.c.x + base.c.n).where(base.c.n < 5 + self.pick(3))
+            c = base.union_all(step) if o in (2, 3) else base.union(step)
+        if self.pick(4) == 0:
+            self.k("cte_alias")
+            return c, c.alias(self.name("ca"))
+        return c, c
+
+    def ref_scope(self, ref, depth):
+        """one scope referencing the CTE: returns ('col', expr) | ('where', criterion) | ('from', fromclause)"""
+        sa = self.sa
+        t1 = self.t1
+        o = self.pick(8)
+        inner = sa.select(ref.c.n).where(ref.c.n > self.pick(4))
+        if depth > 0 and self.flag():
+            # one more level of nesting before the reference
+            self.k("deeper_scope")
+            sq = sa.select(ref.c.n, ref.c.x).where(ref.c.x >= 0).subquery(self.name("dq"))
+            inner = sa.select(sq.c.n).where(sq.c.n > 1)
+        if o == 0:
+            self.k("scalar_subquery")
+            return "col", sa.select(sa.func.max(inner.subquery(self.name("m")).c.n)).scalar_subquery().label(self.name("sc"))
+        if o == 1:
+            self.k("scalar_subquery")
+            return "col", sa.select(sa.func.count()).select_from(ref).scalar_subquery().label(self.name("sc"))
+        if o == 2:
+            self.k("exists")
+            return "where", sa.exists().where(ref.c.n == t1.c.id)
+        if o == 3:
+            self.k("in", "subquery")
+            return "where", t1.c.id.in_(inner)
+        if o == 4:
+            self.k("subquery")
+            return "from", inner.subquery(self.name("fq"))
+        if o == 5:
+            self.k("enclosing_cte")
+            return "from", sa.select(ref.c.n.label("n")).where(ref.c.x < 100).cte(self.name("outer"), nesting=self.flag())
+        if o == 6:
+            self.k("lateral")
+            return "from", sa.select(ref.c.n.label("n")).where(ref.c.n == t1.c.id).lateral(self.name("lt"))
+        self.k("any_all")
+        return "where", t1.c.x == sa.any_(sa.select(ref.c.n).scalar_subquery())
+
+    def statement(self):
+        sa = self.sa
+        t1 = self.t1
+        self.k("cte_scopes")
+        c, ref = self.make_cte()
+        nscopes = 1 + self.pick(3)
+        self.k(f"sibling_scopes={nscopes}")
+        cols, crit, froms = [t1.c.id], [], []
+        for i in range(nscopes):
+            kind, obj = self.ref_scope(ref, self.pick(2))
+            (cols if kind == "col" else crit if kind == "where" else froms).append(obj)
+        shape = self.pick(5)
+        stmt = sa.select(*cols)
+        for f in froms:
+            stmt = stmt.join_from(t1, f, list(f.c)[0] == t1.c.id, isouter=self.flag()) if not getattr(f, "_is_lateral", False) else stmt.join_from(t1, f, sa.true())
+        for w in crit:
+            stmt = stmt.where(w)
+        if shape == 1:
+            self.k("add_cte")
+            stmt = stmt.add_cte(c, nest_here=self.flag())
+        elif shape == 2:
+            self.k("setop")
+            other = sa.select(*[sa.literal(0).label(f"z{i}") for i in range(len(cols))])
+            stmt = sa.union_all(stmt, other)
+        elif shape == 3:
+            self.k("subquery")
+            sq = stmt.subquery(self.name("top"))
+            stmt = sa.select(sa.func.count()).select_from(sq)
+        elif shape == 4:
+            self.k("insert", "from_select")
+            stmt = sa.insert(self.t2).from_select(["y"], sa.select(cols[0]).where(*crit) if crit else sa.select(sa.select(ref.c.n).limit(1).scalar_subquery()))
+        if self.pick(3) == 0 and shape in (0, 1):
+            self.k("limit", "order_by")
+            stmt = stmt.order_by(t1.c.id).limit(3).offset(1)
+        return "ctescopes", stmt
+
+
 def sa_literal_label(sa):
     return sa.literal_column("1").label("one")
 
@@ -1534,7 +1630,8 @@ def check_compile(case, ctx):
     pinned_variants = None if isinstance(case, list) else case.get("variants")
     pinned = not isinstance(case, list) and case.get("pinned", False)
     esc = not isinstance(case, list) and case.get("family") == "escnames"
-    b = EscB(choices, pinned=pinned, ctx=ctx) if esc else B(choices)
+    ctes = not isinstance(case, list) and case.get("family") == "ctescopes"
+    b = EscB(choices, pinned=pinned, ctx=ctx) if esc else CteB(choices) if ctes else B(choices)
     with warnings.catch_warnings():
         warnings.simplefilter("ignore")
         try:
@@ -1626,6 +1723,8 @@ cases = st.one_of(
     _choice_lists,
     # second table family: names needing bind-name escaping (dict form keeps the decoding of plain list cases unchanged)
     st.fixed_dictionaries({"family": st.just("escnames"), "choices": st.lists(st.integers(0, 255), min_size=8, max_size=60)}),
+    # third family: one shared (nesting / recursive) CTE referenced from several sibling and nested scopes
+    st.fixed_dictionaries({"family": st.just("ctescopes"), "choices": st.lists(st.integers(0, 255), min_size=6, max_size=50)}),
 )
 
 
